@@ -23,6 +23,7 @@ CONSTANTS IntentSet,     \* subset of {"a1", "a2", "b1", "bp"}
           Tickets,       \* admission tickets
           PolicyNames,   \* subset of {"all", "kA", "b0", "b1", "b2"}
           MaxTicks, MaxPol, MaxRestart,
+          MaxFaults,     \* trusted recovery (ResolveFault) is offered while at most this many fault records exist
           WithW2,        \* a second worldline with one head
           Export
 
@@ -68,7 +69,8 @@ ProjNext ==
    events |-> UNION {{[w |-> w, i |-> i] : i \in events'[w]} : w \in MC_Worldlines},
    corr |-> {[h |-> HeadName(c.sub[1]), i |-> c.sub[2], ta |-> c.ta, gt |-> c.gt] : c \in corr'},
    wpend |-> Cardinality(wpending'), staged |-> Cardinality(DOMAIN staged'), witnessed |-> Cardinality(witnessed'),
-   pol |-> [k \in 1..Len(Canon) |-> policy'[Canon[k]]]]
+   pol |-> [k \in 1..Len(Canon) |-> policy'[Canon[k]]],
+   nfaults |-> Len(faults'), rtFault |-> runtimeFault']
 
 Emit(op) ==
   /\ hist' = Append(hist, op)
@@ -91,6 +93,12 @@ DoPolicy == \E h \in PresentHeads, n \in PolicyNames :
 DoTick   == /\ globalTick < MaxTicks
             /\ SuperTick /\ Emit([a |-> "tick"])
             /\ UNCHANGED <<polChanges, restarts>>
+\* trusted recovery after a failed (rolled back) pass: the only failure in this model is one ticket staged
+\* for two submissions; what was committed BEFORE the failed pass must still be deduplicated after it
+DoResolve == \E f \in 1..Len(faults) :
+               /\ Len(faults) <= MaxFaults /\ faults[f].status = "active"
+               /\ ResolveFault(f) /\ Emit([a |-> "resolve", f |-> f])
+               /\ UNCHANGED <<polChanges, restarts>>
 DoRestart == /\ restarts < MaxRestart
              /\ Restart /\ Emit([a |-> "restart"])
              /\ restarts' = restarts + 1 /\ UNCHANGED polChanges
@@ -99,7 +107,7 @@ MC_Init ==
   /\ hist = <<>> /\ polChanges = 0 /\ restarts = 0
   /\ elig = [h \in MC_Heads |-> IF Present(h) THEN "admitted" ELSE "absent"]
   /\ Init0
-MC_Next == DoIngest \/ DoSubmit \/ DoStage \/ DoPolicy \/ DoTick \/ DoRestart
+MC_Next == DoIngest \/ DoSubmit \/ DoStage \/ DoPolicy \/ DoTick \/ DoResolve \/ DoRestart
 MC_Spec == MC_Init /\ [][MC_Next]_allvars
 
 \* history variables (hist, prev, last) are not part of a state's identity
